@@ -1,6 +1,7 @@
 package work
 
 import (
+	"bytes"
 	"fmt"
 
 	"github.com/Eyevinn/mp4ff/mp4"
@@ -55,6 +56,26 @@ func FromInput(c *runner.Ctx, in Input) []Struct {
 		out = append(out, Struct{Kind: "decoded/" + path, Decoded: true, Input: x, Desc: in.Name + " | " + in.Desc, New: mk(false)})
 		if d.File != nil && d.File.IsFragmented() {
 			out = append(out, Struct{Kind: "decoded/" + path + "/segment-mode", Decoded: true, SegMode: true, Input: x, Desc: in.Name + " | " + in.Desc, New: mk(true)})
+			// the public optimisation knobs on a decoded file: on the file, or on its segments only
+			onFile := c.Rand.Bool()
+			knob := map[bool]string{true: "file-optimize", false: "segment-optimize"}[onFile]
+			base := mk(true)
+			out = append(out, Struct{Kind: "decoded/" + path + "/segment-mode," + knob, Decoded: true, SegMode: true, Optimize: true, Input: x, Desc: in.Name + " | " + in.Desc,
+				New: func() Encodable {
+					e := base()
+					f, ok := e.(*mp4.File)
+					if e == nil || !ok {
+						return e
+					}
+					if onFile {
+						f.EncOptimize = mp4.OptimizeTrun
+					} else {
+						for _, sg := range f.Segments {
+							sg.EncOptimize = mp4.OptimizeTrun
+						}
+					}
+					return f
+				}})
 		}
 	}
 	return out
@@ -108,6 +129,54 @@ func FromHistory(c *runner.Ctx, r *runner.Rand, h *genfrag.History) []Struct {
 			}
 		}
 		return init
+	}})
+	// an mdat box (alone and inside a fragment) that is used a second time through its public
+	// fields: filled, emptied by truncating DataParts / Data, filled again with other amounts
+	reuse := r.Intn(4)
+	a, b2 := 1+r.Intn(3000), 1+r.Intn(600)
+	out = append(out, Struct{Kind: fmt.Sprintf("api/MdatBox[reused,%d]", reuse), Desc: fmt.Sprintf("mdat filled with %d bytes, emptied, filled with %d bytes (variant %d)", a, b2, reuse), New: func() Encodable {
+		m := &mp4.MdatBox{}
+		fill := func(n int, parts bool) {
+			for left := n; left > 0; {
+				k := 1 + left/2
+				chunk := make([]byte, k)
+				for i := range chunk {
+					chunk[i] = byte(left + i)
+				}
+				if parts {
+					m.AddSampleDataPart(chunk)
+				} else {
+					m.AddSampleData(chunk)
+				}
+				left -= k
+			}
+		}
+		var sink bytes.Buffer
+		switch reuse {
+		case 0: // parts, encode, truncate, parts
+			fill(a, true)
+			_ = m.Size()
+			_ = m.Encode(&sink)
+			m.DataParts = m.DataParts[:0]
+			fill(b2, true)
+		case 1: // parts, nil, parts (never encoded in between)
+			fill(a, true)
+			_ = m.DataLength()
+			m.DataParts = nil
+			fill(b2, true)
+		case 2: // monolithic data, encode, truncate, monolithic data
+			fill(a, false)
+			_ = m.Size()
+			_ = m.Encode(&sink)
+			m.Data = m.Data[:0]
+			fill(b2, false)
+		default: // monolithic data replaced through SetData, then parts
+			fill(a, false)
+			_ = m.Size()
+			m.SetData(nil)
+			fill(b2, true)
+		}
+		return m
 	}})
 	newFrag := func(fs *genfrag.FragmentSpec, optimize bool) *mp4.Fragment {
 		var f *mp4.Fragment
